@@ -37,9 +37,14 @@ const (
 // 129 characters: one more than allowed
 var vLong = v0 + v0 + "aaaaaaaaaaaaaaaaaaaaaaaaaaaaa"
 
-// bound of the symbolic challenge / verifier strings. The solvers need > 10 s per query for
-// strings of 129+ characters, so the "too long" class is exercised with the concrete vLong.
-const symLen = 64
+// Symbolic challenge / verifier strings are a concrete prefix of v0 followed by a free tail of up to
+// symTail printable characters: verifier lengths 42..50 (so "too short", "bad character", "wrong",
+// "correct" are all reachable), challenge lengths 40..48. Free strings of 43+ characters are beyond
+// cvc5 1.0.3 (a disequality with a constant takes > 30 s); the "too long" class uses the concrete vLong.
+const (
+	symPrefix = 42
+	symTail   = 8
+)
 
 var unreservedOnly = regexp.MustCompile(`^[A-Za-z0-9\-._~]*$`)
 
@@ -91,7 +96,11 @@ func (s *st) enforced() bool {
 // authorize runs the authorization endpoint; returns whether a code was issued.
 func (s *st) authorize(symbolicChallenge bool) bool {
 	extra := url.Values{}
-	switch zz.Choice("challenge", 4) {
+	nChal := 6
+	if !symbolicChallenge && !zz.Thorough() {
+		nChal = 4 // quick tier: the two extra challenge kinds are exercised by ZZ_C03_symbolic only
+	}
+	switch zz.Choice("challenge", nChal) {
 	case 0:
 		s.challenge = ""
 		zz.Cover("authz:no-challenge", true)
@@ -103,14 +112,19 @@ func (s *st) authorize(symbolicChallenge bool) bool {
 		zz.Cover("authz:challenge=v0", true)
 	case 3:
 		if symbolicChallenge {
-			s.challenge = zz.String("challenge", symLen)
+			s.challenge = v0[:symPrefix-2] + zz.String("challenge.tail", symTail)
 			s.symChal = true
-			zz.Assume(len(s.challenge) > 0)
 			zz.Cover("authz:challenge-symbolic", true)
 		} else {
 			s.challenge = "unrelated-literal-challenge"
 			zz.Cover("authz:challenge-literal", true)
 		}
+	case 4:
+		s.challenge = s256(v0)[:21] // a proper prefix of the S256 image of v0
+		zz.Cover("authz:challenge=truncated-S256(v0)", true)
+	case 5:
+		s.challenge = vBadChar // equal to a malformed verifier of the family
+		zz.Cover("authz:challenge=malformed-verifier", true)
 	}
 	if s.challenge != "" {
 		extra.Set("code_challenge", s.challenge)
@@ -196,8 +210,7 @@ func (s *st) attempt(i int, symbolicVerifier bool) bool {
 		// free strings exceeds the solver budget; symbolic challenges meet the concrete verifier family
 		// (and themselves, kind 6), the symbolic verifier meets the challenges the harness computed.
 		zz.Assume(!s.symChal)
-		v = zz.String("verifier", symLen)
-		zz.Assume(len(v) > 0)
+		v = v0[:symPrefix] + zz.String("verifier.tail", symTail)
 	}
 	if !absent {
 		form.Set("code_verifier", v)
@@ -207,6 +220,9 @@ func (s *st) attempt(i int, symbolicVerifier bool) bool {
 	ok := err == nil
 	if ok {
 		zz.Assert(resp.GetAccessToken() != "", "success carries an access token")
+		if i > 0 {
+			zz.Cover("attempt:success-after-refusals", true)
+		}
 	}
 	if s.challenge != "" {
 		// a challenge was stored with the code
@@ -221,7 +237,7 @@ func (s *st) attempt(i int, symbolicVerifier bool) bool {
 				zz.Assert(wellFormed(v), "first attempt: success implies a well-formed verifier")
 				zz.Assert(s.transformOK(v), "first attempt: success implies T_method(verifier) = challenge")
 			default:
-				zz.Cover("attempt:later-success-with-challenge", true)
+				// (unreachable on a tree with defect S1: the binding is gone after the first refusal)
 				zz.Assert(wellFormed(v), "after failed attempts: success implies a well-formed verifier")
 				zz.Assert(s.transformOK(v), "after failed attempts: success implies T_method(verifier) = challenge")
 			}
@@ -262,7 +278,7 @@ func ZZ_C03_attempts() {
 	}
 }
 
-// ZZ_C03_symbolic: symbolic challenge (plain) and symbolic verifier (zz.String, <= 64 chars),
+// ZZ_C03_symbolic: symbolic challenge (plain) and symbolic verifier (42 fixed + <= 8 free characters),
 // k = 1 (quick) / 2 (thorough).
 func ZZ_C03_symbolic() {
 	if zz.Thorough() {
